@@ -782,10 +782,14 @@ class C20(core.Check):
     # ------------------------------------------------------------------ generators
     def gen_cases(self, rng: random.Random, tier: str) -> List[dict]:
         if tier == "quick":
-            n_rand, n_grid, n_mesh = 500, 80, 40
-        else:
-            n_rand, n_grid, n_mesh = 6000, 1200, 300
-        return boundary_cases() + random_cases(rng, n_rand) + grid_cases(rng, n_grid) + mesh_cases(rng, n_mesh)
+            return boundary_cases() + random_cases(rng, 500) + grid_cases(rng, 80) + mesh_cases(rng, 40)
+        # thorough: wider index ranges (all pairs in -12..19), all frames, much longer random streams
+        return (
+            boundary_cases(pair_lo=-12, pair_hi=19)
+            + random_cases(rng, 20000)
+            + grid_cases(rng, 3000)
+            + mesh_cases(rng, 800)
+        )
 
     def search_cases(self, rng: random.Random, tier: str) -> List[dict]:
         return boundary_cases() + random_cases(rng, 400) + grid_cases(rng, 100) + mesh_cases(rng, 40)
